@@ -160,6 +160,10 @@ class C17(Prop):
                 for c in ['|', '.', '(', ')', '[', ']', '<', '>', '\\{', '\\}', 'x', ' ']:
                     if d in ('.', '|', '\\langle', '('):
                         out.append('$\\%s%s%s y$' % (pre, d, c))
+        # names LaTeX also uses for sizing (not in TexSoup's table today)
+        for pre in ('middle', 'bigl', 'bigr', 'Bigl', 'Biggr', 'biggm', 'mathopen'):
+            for d in delims:
+                out.append('$a \\%s%s b$' % (pre, d))
         for pre in docgen.SIZING:
             for nd in ('x', '/', '\\Vert', ' (', '\\|', '1', ''):
                 out.append('$\\%s%s v$' % (pre, nd))
